@@ -72,6 +72,10 @@ CHECKS = {
    technique="runtime monitor: class/sign oracle evaluated with Go's float64 math on dyadic class representatives, bit-identity monitor for NaN propagation, payload-text oracle from an independent op/class name table, four-way classification check against the harness decoder",
    text="Every arithmetic (x 6 modes and default), QuoRem, Pow, elementary, rounding and sign operation is observed on the complete cross product of 15 operand classes with random members per cell (non-canonical Inf/NaN/zero encodings, cohorts, huge odd/even integers); results are judged for class and sign whenever an operand is NaN/Inf/zero or the operation is invalid, NaN operands must be propagated bit for bit, invalid-operation NaNs must carry the documented Payload text, finite operands never give NaN otherwise, and IsNaN/IsInf/IsZero/Signbit are checked on arbitrary bit patterns. The run is inconclusive unless every class cell was hit. Exploration.",
    ref="DESIGN.md §5 C15"),
+ "C16": dict(
+   technique="runtime monitor: 1100-bit big.Float reference (error < 2^-900), error measured in units of the format spacing at the true result; exact-result oracle for exactly representable cases; analytic side decision inside the 1e-100 guard band; per DefaultRoundingMode phase",
+   text="Exp, Exp2, Exp10, Expm1, Log, Log2, Log10, Log1p are observed on arguments from 1e-6176 to beyond the overflow thresholds (incl. the region where internal 16-bit exponents wrap), near 0/1/-1, exact powers and their neighbours, every integer of the admissible range for Exp2/Exp10 (thorough), every decimal exponent x leading-two-digit table slot for the logarithms, cohort variants, under all six default modes; each result must be within one format unit of the reference at the true result, exactly representable results exact under nearest-even, Inf/zero only beyond the range. Known open findings (pinned by the repository's own vectors or spread over the working arithmetic) are matched by narrow argument predicates. Exploration.",
+   ref="DESIGN.md §5 C16"),
 }
 
 PENDING = "monitor for this property is not built yet in this revision (work in progress; see DESIGN.md §5 for the planned monitor)"
